@@ -20,6 +20,7 @@ def run(rep):
     rep.guard(s4, rep, w)
     rep.guard(s5, rep, w)
     rep.guard(s6, rep, w)
+    rep.guard(s7, rep, w)
     import c08
     rep.guard(c08.x9, rep, w)    # a global name is looked up in the module of the running frame: the cached module follows every frame change
     import c04_narrow
@@ -466,3 +467,46 @@ def s6(rep, w):
                     'dead slot (for the last frame of a fiber: memory of a stack that is freed with the fiber)', f.loc(f.blocks[bi]['t'].get('sp')))
     if n < 3:
         raise Broken('C06', 'floor', 'frame removals found: %d' % n)
+
+
+def s7(rep, w):
+    """a name that is not declared locally resolves to an enclosing function's variable or to the module global looked up when the use
+    runs. The hidden local the compiler puts into slot zero of every function (the callee, or the receiver of a method) must therefore
+    carry a name no program-chosen identifier can shadow-match: one of the compiler's own constants ("", "self", "Self"), never the
+    function's name or any other text from the source -- otherwise `f` inside `fn f` silently becomes a local and stops seeing a later
+    rebinding of f."""
+    r = rep.rule('S7', 'the hidden slot-zero local is named by a compiler constant, never by text from the source', floor=1)
+    f = w.require_fn('yarel::compiler::Compiler::new', 'C06')
+    org = origins(f)
+    n = 0
+    for b in f.blocks:
+        for s_ in b['s']:
+            rr = s_.get('r', {})
+            if rr.get('rv') != 'agg' or rr.get('adt') != 'yarel::compiler::Local':
+                continue
+            for fn_, o in zip(rr.get('fn') or [], rr['ops']):
+                if fn_ != 'name':
+                    continue
+                n += 1
+                roots, work, seen = set(), [op_place(o)['l']] if op_place(o) else [], set()
+                while work:
+                    l = work.pop()
+                    if l in seen:
+                        continue
+                    seen.add(l)
+                    for q in org.get(l, ()):
+                        if q[0][0] == 'call':
+                            args = f.blocks[q[0][1]]['t']['args']
+                            nm = strip_generics(q[0][2])
+                            if args and (nm.endswith('::to_owned') or nm.endswith('::to_string') or nm.endswith('::from') or nm.endswith('::into') or nm.endswith('::clone')) and op_place(args[0]):
+                                work.append(op_place(args[0])['l'])
+                            else:
+                                roots.add(q[0][2])
+                        elif q[0][0] == 'const':
+                            continue
+                        else:
+                            roots.add(str(q[0]))
+                r.check(not roots, 'Compiler::new: slot zero is named by string constants only', 'the hidden local in slot zero gets its name from %s: an identifier in the function body that '
+                        'happens to match it is compiled as a read of slot zero instead of the variable the source names' % sorted(roots)[:3], f.loc(s_.get('sp')))
+    if n < 1:
+        raise Broken('C06', 'anchor', 'Compiler::new: the slot-zero Local is not built here')
